@@ -12,6 +12,10 @@ Tie, on every run:
        match arms (2, 3, 5), in constrained and unconstrained contexts
   scope  every binding construct x {use in scope, use of that name just outside its scope}; theorems of
        Props/C06c.lean over builder C13's Model/Scope.lean, tied by C13's `ssa` protocol run on these programs
+  pat  deterministic family: every diagnostic gate of check_matching_pattern (+ accepted twins, every object/tuple
+       position of a refutable sub-pattern); expected verdict from builder C07's Lean model via drv-c07
+  misc deterministic family: kind gates (Model/Gates.lean `kind`), rebinding, builtin/under-constrained values,
+       hint paths, syntax gates of parser and lexer; each with the expected error kind
   sup  real resolve_all_transitive_super_types (hook) vs Gates.resolveSupers on random declaration graphs (exact)
   abs/confi/nam  abstract-type gate, conformance against generic interface instances, class/module/member names
   vis/imp/tya/conf/bnd  Lean kernels of Model/Gates.lean (visibility, imports, type-argument arity,
@@ -1717,6 +1721,281 @@ def check_gates2(ctx, rng, stats, hist):
 
 
 
+# ------------------------------------------------------------------ pattern gates (check_matching_pattern / check_declaration_statement / if-let)
+
+def pat_family():
+    """Deterministic family: one minimal violating program per diagnostic gate of
+    `check_matching_pattern` (main_checker.rs:1197-1530), `check_declaration_statement` (:1532-1570)
+    and the if-let guard (:950-958), each with an accepted twin, plus every placement of a refutable
+    sub-pattern inside object / tuple patterns (all field positions x all mention orders).
+    Cases use builder C07's case format (vlib/c07.py): the expected verdict comes from C07's Lean
+    model of this function (`normalize` .err, `incompleteCounterexample`, usefulness) through
+    drv-c07."""
+    I = ("int",)
+    C0 = {"name": "C0", "generic": 0, "kind": "enum", "variants": [(0, []), (1, [I]), (2, [I, I]), (3, [("cls", "C1", None)])]}
+    C1 = {"name": "C1", "generic": 0, "kind": "struct", "fields": [(0, I), (1, I)], "private": []}
+    C2 = {"name": "C2", "generic": 0, "kind": "struct", "fields": [(0, ("cls", "C0", None)), (1, ("cls", "C0", None)), (2, I)], "private": [2]}
+    C3 = {"name": "C3", "generic": 0, "kind": "struct", "fields": [(0, ("cls", "C0", None)), (1, ("cls", "C0", None))], "private": []}
+    classes = [C0, C1, C2, C3]
+    T = lambda n: ("cls", n, None)
+    W, V, O, Tp, R = ("W",), (lambda t, *a: ("V", t, list(a))), (lambda *fs: ("O", list(fs))), (lambda *ps: ("T", list(ps))), (lambda *ps: ("R", list(ps)))
+    v = lambda n: ("I", n)
+    cases = []
+
+    def add(label, kind, ty, pats, home=None):
+        cases.append((label, {"classes": classes, "ty": T(ty), "kind": kind, "pats": pats, "malformed": True, "home": home}))
+    full = [V(0), V(1, W), V(2, W, W), V(3, W)]
+    # tuple patterns
+    add("tuple/not-a-struct", "let", "C0", [Tp(v(1), v(2))])
+    add("tuple/ok", "let", "C1", [Tp(v(1), v(2))])
+    add("tuple/private-element", "let", "C2", [Tp(v(1), v(2), v(3))])
+    add("tuple/private-element-inside-class-ok", "let", "C2", [Tp(v(1), v(2), v(3))], home="C2")
+    add("tuple/surplus-element", "let", "C1", [Tp(v(1), v(2), v(3))])
+    add("tuple/too-few-elements", "let", "C1", [Tp(v(1))])
+    # object patterns
+    add("object/not-a-struct", "let", "C0", [O((0, v(1)))])
+    add("object/ok", "let", "C1", [O((0, v(1)), (1, v(2)))])
+    add("object/reordered-ok", "let", "C1", [O((1, v(2)), (0, v(1)))])
+    add("object/private-field", "let", "C2", [O((0, v(1)), (1, v(2)), (2, v(3)))])
+    add("object/private-field-inside-class-ok", "let", "C2", [O((0, v(1)), (1, v(2)), (2, v(3)))], home="C2")
+    add("object/field-twice", "let", "C1", [O((0, v(1)), (0, v(2)), (1, v(3)))])
+    add("object/unknown-field", "let", "C1", [O((5, v(1)), (0, v(2)), (1, v(3)))])
+    add("object/field-not-mentioned", "let", "C1", [O((0, v(1)))])
+    # variant patterns
+    add("variant/ok", "match", "C0", full)
+    add("variant/unknown-tag", "match", "C0", full + [V(7)])
+    add("variant/not-an-enum", "match", "C1", [V(0)])
+    add("variant/surplus-argument", "match", "C0", [V(0), V(1, W, W), V(2, W, W), V(3, W)])
+    add("variant/too-few-arguments", "match", "C0", [V(0), V(1, W), V(2, W), V(3, W)])
+    add("variant/missing-arm", "match", "C0", full[:3])
+    add("variant/redundant-arm-ok", "match", "C0", full + [V(1, W)])     # not a diagnostic in this language
+    # or-patterns
+    add("or/ok", "match", "C0", [V(0), R(V(1, v(1)), V(2, v(1), W)), V(3, W)])
+    add("or/inconsistent-names", "match", "C0", [V(0), R(V(1, v(1)), V(2, v(2), W)), V(3, W)])
+    add("or/inconsistent-types", "match", "C0", [V(0), R(V(1, v(1)), V(3, v(1))), V(2, W, W)])
+    add("or/object-in-later-alternative-ok", "match", "C0", [V(0), V(1, W), V(2, W, W), R(V(3, O((0, v(1)), (1, W))), V(3, Tp(v(1), W)))])
+    add("or/nested-or-in-later-alternative-ok", "match", "C0", [V(0), R(V(1, v(1)), R(V(2, v(1), W), V(2, W, v(1)))), V(3, W)])
+    add("or/object-pattern-in-later-alternative-ok", "match", "C0", [V(0), V(1, W), V(2, W, W), R(V(3, Tp(v(1), W)), V(3, O((0, v(1)), (1, W))))])
+    add("or/or-inside-later-alternative-ok", "match", "C0", [V(0), V(1, W), V(2, W, W), R(V(3, Tp(v(1), W)), V(3, Tp(R(v(1), v(1)), W)))])
+    add("or/object-in-later-alternative-missing-binding", "match", "C0", [V(0), V(1, W), V(2, W, W), R(V(3, Tp(v(1), W)), V(3, O((0, W), (1, W))))])
+    # let / if-let
+    add("let/refutable", "let", "C0", [V(1, v(1))])
+    add("let/irrefutable-ok", "let", "C0", [v(1)])
+    add("iflet/useless", "iflet", "C0", [v(1)])
+    add("iflet/refutable-ok", "iflet", "C0", [V(1, v(1))])
+    # bad patterns with nested tuple / object / or sub-patterns (any_typed_invalid_matching_pattern), in let and if-let
+    nested_bad = Tp(Tp(v(1), v(2)), O((0, v(3))), R(V(0), V(1, W)))
+    add("invalid/nested-under-not-a-struct/let", "let", "C0", [nested_bad])
+    add("invalid/nested-under-not-a-struct/iflet", "iflet", "C0", [nested_bad])
+    add("invalid/object-under-not-a-struct/iflet", "iflet", "C0", [O((0, Tp(v(1))), (1, R(v(2), v(2))))])
+    add("invalid/unknown-tag/iflet", "iflet", "C0", [V(7, Tp(v(1)))])
+    add("invalid/or-inconsistent/iflet", "iflet", "C0", [R(V(1, v(1)), V(2, v(2), W))])
+    add("invalid/tuple-too-few/iflet", "iflet", "C3", [Tp(V(1, W))])
+    # refutable sub-pattern at every field position, every mention order (object), let and match
+    import itertools
+    for n, cname in ((2, "C3"), (3, "C2")):
+        home = "C2" if cname == "C2" else None
+        fields = list(range(n))
+        refutable_ok = lambda f: (cname, f) != ("C2", 2)        # field c of C2 is an int
+        for order in itertools.permutations(fields):
+            for pos in fields:
+                if not refutable_ok(pos):
+                    continue
+                elems = [(f, V(1, W) if f == pos else W) for f in order]
+                add(f"object-position/let/{cname}/order{''.join(map(str, order))}/refutable-at-{pos}", "let", cname, [O(*elems)], home)
+                # match with two arms that differ only at `pos`: A and B(_) there -> C, D missing
+                arm = lambda tag: O(*[(f, tag if f == pos else W) for f in order])
+                add(f"object-position/match-missing/{cname}/order{''.join(map(str, order))}/at-{pos}", "match", cname, [arm(V(0)), arm(V(1, W))], home)
+                add(f"object-position/match-complete-ok/{cname}/order{''.join(map(str, order))}/at-{pos}", "match", cname,
+                    [arm(V(0)), arm(V(1, W)), arm(V(2, W, W)), arm(V(3, W))], home)
+            add(f"object-position/let-irrefutable-ok/{cname}/order{''.join(map(str, order))}", "let", cname, [O(*[(f, W) for f in order])], home)
+        for pos in fields:
+            if refutable_ok(pos):
+                add(f"tuple-position/let/{cname}/refutable-at-{pos}", "let", cname, [Tp(*[V(1, W) if f == pos else W for f in fields])], home)
+    return cases
+
+
+def check_patterns(ctx, stats, hist):
+    try:
+        from . import c07
+        common.build_harness("C07")
+        ok, _ = common.build_lean(["drv-c07"])
+        if not ok:
+            raise RuntimeError("drv-c07 does not build")
+    except Exception as ex:
+        ctx.assumptions.append(f"pattern-gate family not run (builder C07's model driver unavailable): {ex!r}"[:200])
+        return
+    fam = pat_family()
+    srcs = [c07.render_case(case) for _, case in fam]
+    model = common.run_exec(common.driver_bin("C07"), [], [c07.case_line(case, src) for (_, case), src in zip(fam, srcs)])[1]
+    progs = []
+    for (label, case), src in zip(fam, srcs):
+        main = "" if case.get("home") is None else "class Main {\n  function main(): unit = Process.println(\"m\")\n}\n"
+        if case.get("home") is None:
+            src = src.replace("class Main {\n", "class Main {\n  function main(): unit = Process.println(\"m\")\n")
+        progs.append({"sources": {"Main": src + main}, "entry": "Main", "std": False, "compile": True})
+    answers = eval_programs(progs)
+    for (label, case), m, pr, ans in zip(fam, model + [""] * len(fam), progs, answers):
+        stats["pat"] += 1
+        hist["pat"] = hist.get("pat", 0) + 1
+        mv = c07.model_verdict(m)
+        if "bad" in mv:
+            ctx.violation("pattern-gate family: C07's model driver gave no verdict", {"protocol": "pat", "case": label, "model": m,
+                          "broken": "drv-c07 chk"}, no_input=True)
+            continue
+        expect_reject = mv["err"] or mv["nonexh"] is not None or mv["useless"]
+        if (("-ok" in label) or label.endswith("/ok")) == expect_reject:
+            ctx.violation(f"pattern-gate family: the model's verdict for {label} contradicts the family's own bookkeeping",
+                          {"protocol": "pat", "case": label, "model": m, "broken": "vlib/c06.py pat_family vs Model/Useful.lean"}, no_input=True)
+            continue
+        verdict = gate_verdict(ans, "Main")
+        if expect_reject and verdict == "reject":
+            stats["pat_rejected"] += 1
+        elif not expect_reject and verdict == "accept":
+            stats["pat_accepted"] += 1
+        elif expect_reject:
+            stats["pat_slipped"] += 1
+            if stats["pat_slipped"] <= 4:
+                ctx.violation(f"static error not rejected (pattern gate {label}): {verdict}; the model (err={mv['err']}, nonexh={mv['nonexh']}, useless={mv['useless']}) rejects it",
+                              {"protocol": "prog", "mutant": "pat " + label, "module": "Main", "program": pr, "answer": ans, "why": verdict})
+        else:
+            stats["pat_overstrict"] += 1
+            if stats["pat_overstrict"] <= 3:
+                ctx.violation(f"pattern-gate correspondence broken ({label}): model accepts, front end says {verdict}",
+                              {"protocol": "prog", "mutant": "pat " + label, "module": "Main", "program": pr, "answer": ans,
+                               "broken": "pat correspondence (accept side)"}, no_input=True)
+
+
+
+# ------------------------------------------------------------------ kind gates and the other rejecting branches (deterministic)
+
+MISC_DECLS = ("class P(val v: int) {\n  method get(): int = this.v\n  function mk(): P = P.init(1)\n}\n"
+              "class Opt<T>(None, Some(T)) {\n  method k(): int = 0\n}\n"
+              "class Util {\n  function <T> id(x: T): T = x\n  function addI(a: int, b: int): int = a + b\n  function app(g: (int) -> int, x: int): int = g(x)\n}\n"
+              "class H(val fn: (int) -> int) {\n  method k(): int = 0\n}\n"
+              "interface Ifc {\n  method i(): int\n}\n")
+
+
+def misc_family():
+    """(label, model line or None, expected kind, module text): one minimal violating program per
+    remaining rejecting branch of the checker / scope analysis / lexer, each next to an accepted
+    twin. The verdict of the kind gates comes from Model/Gates.lean (`kind …`), of rebinding from
+    the scope model (theorem rebind_reported, `ssa` tie), the rest from the stated rule."""
+    body = lambda e, params="a: int, b: bool, s: Str, p: P, f: (int) -> int": (
+        MISC_DECLS + f"class Main {{\n  function t({params}): int = {e}\n  function main(): unit = Process.println(\"m\")\n}}\n")
+    decl = lambda d: MISC_DECLS + d + "class Main {\n  function main(): unit = Process.println(\"m\")\n}\n"
+    P, F, I = "n0,1,2()", "f(i)i", "i"
+    out = [
+        ("callee/int", f"kind callee {I}", "IncompatibleTypeKind", body("a(1)")),
+        ("callee/class-instance", f"kind callee {P}", "IncompatibleTypeKind", body("p(1)")),
+        ("callee/function-value-ok", f"kind callee {F}", None, body("f(1)")),
+        ("object/int", f"kind object - {I}", "IncompatibleTypeKind", body("a.foo")),
+        ("object/function", f"kind object - {F}", "IncompatibleTypeKind", body("f.foo")),
+        ("object/class-ok", f"kind object - {P}", None, body("p.get()")),
+        ("object/unbounded-type-parameter", "kind object - g1;", "IncompatibleTypeKind",
+         MISC_DECLS + "class Main {\n  function <T> t(x: T): int = x.i()\n  function main(): unit = Process.println(\"m\")\n}\n"),
+        ("object/bounded-type-parameter-ok", "kind object 1 g1;", None,
+         MISC_DECLS + "class Main {\n  function <T: Ifc> t(x: T): int = x.i()\n  function main(): unit = Process.println(\"m\")\n}\n"),
+        ("fieldtargs/given", "kind fieldtargs 1", "Stacked", body("p.v<int>")),
+        ("fieldtargs/none-ok", "kind fieldtargs -", None, body("p.v")),
+        ("super/class", "kind super 1.2=0,1.7=1 1.2=0", "IncompatibleTypeKind", decl("class K(val z: int) : P {\n  method k(): int = 0\n}\n")),
+        ("super/interface-ok", "kind super 1.2=0,1.7=1 1.7=0", None, decl("class K(val z: int) : Ifc {\n  method i(): int = 0\n}\n")),
+        ("imember/function-in-interface", "kind imember 0 mf", "IllegalFunctionInInterface", decl("interface J {\n  method a(): int\n  function b(): int\n}\n")),
+        ("imember/methods-only-ok", "kind imember 0 mm", None, decl("interface J {\n  method a(): int\n  method b(): int\n}\n")),
+        ("imember/function-in-class-ok", "kind imember 1 mf", None, decl("class J(val z: int) {\n  method a(): int = 1\n  function b(): int = 2\n}\n")),
+        # conformance: type-parameter *name* mismatch (main_checker.rs:1639-1641)
+        ("conf/tparam-renamed", "conf 1/1/[1=-]/f(g1;)g1; | 1/1/[2=-]/f(g2;)g2;", "TypeParameterNameMismatch",
+         decl("interface J {\n  method <T> m(x: T): T\n}\nclass K(val z: int) : J {\n  method <U> m(x: U): U = x\n}\n")),
+        ("conf/tparam-same-ok", "conf 1/1/[1=-]/f(g1;)g1; | 1/1/[1=-]/f(g1;)g1;", None,
+         decl("interface J {\n  method <T> m(x: T): T\n}\nclass K(val z: int) : J {\n  method <T> m(x: T): T = x\n}\n")),
+        # rebinding (ssa_analysis.rs:465-478)
+        ("rebind/same-block", None, "NameAlreadyBound", body("{ let v = 1; let v = 2; v }")),
+        ("rebind/nested-block", None, "NameAlreadyBound", body("{ let v = 1; let w = { let v = 2; v }; v + w }")),
+        ("rebind/parameter", None, "NameAlreadyBound", body("{ let a = 1; a }")),
+        ("rebind/lambda-parameter", None, "NameAlreadyBound", body("{ let g = (a: int) -> a; g(1) }")),
+        ("rebind/match-binding", None, "NameAlreadyBound", body("match Opt.Some(1) { Some(a) -> a, None -> 0 }")),
+        ("rebind/distinct-names-ok", None, None, body("{ let v = 1; let w = { let u = 2; u }; v + w }")),
+        # values that cannot exist
+        ("builtin-member-as-value", None, "BuiltinMemberAsValue", body("{ let g = s.toInt; 1 }")),
+        ("builtin-member-called-ok", None, None, body("s.toInt()")),
+        ("underconstrained/generic-function-value", None, "Underconstrained", body("{ let g = Util.id; 1 }")),
+        ("underconstrained/explicit-ok", None, None, body("{ let g = Util.id<int>; g(1) }")),
+        ("underconstrained/none-constructor", None, "Underconstrained", body("{ let g = Opt.None(); 1 }")),
+        # hints through match / else-if arguments (main_checker.rs:80-120): inference must not lose the branch types
+        ("hint/match-argument-ok", None, None, body("Util.id(match Opt.Some(a) { Some(q) -> q, None -> 0 })")),
+        ("hint/match-argument-wrong-arm", None, "Stacked", body("Util.addI(match Opt.Some(a) { Some(q) -> q, None -> b }, 1)")),
+        ("hint/else-if-argument-ok", None, None, body("Util.id(if b { 1 } else if b { 2 } else { 3 })")),
+        ("hint/else-if-argument-wrong-branch", None, "Stacked", body("Util.addI(if b { 1 } else if b { s } else { 3 }, 1)")),
+        ("hint/match-of-lambdas-argument-ok", None, None, body("Util.app(match Opt.Some(a) { Some(q) -> (z) -> z + q, None -> (z) -> z }, 1)")),
+        ("hint/match-of-lambdas-argument-wrong-arm", None, "Stacked", body("Util.app(match Opt.Some(a) { Some(q) -> (z) -> z + q, None -> (z) -> b }, 1)")),
+        ("callee/function-typed-field-ok", None, None, body("h.fn(1)", "a: int, b: bool, h: H")),
+        ("callee/function-typed-field-wrong-argument", None, "Stacked", body("h.fn(b)", "a: int, b: bool, h: H")),
+        # lexer: invalid escape in a string literal (lexer.rs:174-176)
+        ("lexer/invalid-escape", None, "InvalidSyntax", body("{ let z = \"a\\qb\"; 1 }")),
+        ("lexer/valid-escape-ok", None, None, body("{ let z = \"a\\nb\"; 1 }")),
+    ]
+    # syntax gates of the lexer / parser (each report site of source_parser.rs and the reserved words of
+    # lexer.rs): an ill-formed module is rejected with InvalidSyntax and never compiled
+    syn = lambda t: t + "class Main {\n  function main(): unit = Process.println(\"m\")\n}\n"
+    fn = lambda e: syn("class Q {\n  function t(a: int): int = " + e + "\n}\n")
+    synt = [
+        ("expected-operator", fn("(a + 1")), ("expected-keyword", syn("class Q {\n  t(a: int): int = 1\n}\n")),
+        ("expected-lower-id", fn("{ let = 1; a }")), ("expected-upper-id", syn("class (val v: int) { }\n")),
+        ("expected-identifier-after-dot", fn("a.1")), ("expected-expression", fn("a + ")),
+        ("expected-member-name", fn("a.")), ("bad-toplevel-keyword", syn("function f(): int = 1\n")),
+        ("unexpected-private", syn("class Q {\n  private private function t(): int = 1\n}\n")),
+        ("struct-too-large", syn("class Big(" + ", ".join(f"val f{i}: int" for i in range(17)) + ") {\n  method k(): int = 0\n}\n")),
+        ("struct-max-size-ok", syn("class Big(" + ", ".join(f"val f{i}: int" for i in range(16)) + ") {\n  method k(): int = 0\n}\n")),
+        ("invalid-token", fn("a @ 1")), ("unterminated-string", fn("{ let z = \"abc; 1 }")),
+        ("missing-import-semicolon-module", "import { A } from\n" + syn("")),
+        ("lambda-parameter-list-broken", fn("{ let g = (x: int, ) -> ; 1 }")),
+        ("match-without-arms", fn("match a { }")),
+        ("type-annotation-missing", syn("class Q {\n  function t(a: ): int = 1\n}\n")),
+        ("private-member-in-interface", syn("interface J {\n  private method a(): int\n}\n")),
+        ("private-interface-ok", syn("private interface J {\n  method a(): int\n}\n")),
+        ("tuple-too-large", fn("{ let z = (" + ", ".join("1" for _ in range(17)) + "); a }")),
+        ("reserved-operator-brackets", fn("a[0]")), ("reserved-operator-question", fn("a ? 1")),
+        ("reserved-operator-dotdotdot", fn("{ let z = ...; a }")),
+        ("unterminated-block-comment", fn("a") + "/* never closed"),
+        ("unterminated-string-at-eof", fn("a") + "\"never closed"),
+    ] + [(f"reserved-word-{w}", fn("{ let " + w + " = 1; a }")) for w in
+         ["protected", "internal", "public", "then", "string", "self", "const", "var", "type", "constructor",
+          "destructor", "extends", "implements", "exports", "assert", "let", "val", "class", "if", "match"]]
+    for label, text in synt:
+        out.append(("syntax/" + label, None, None if label.endswith("-ok") else "InvalidSyntax", text))
+    return out
+
+
+def check_misc(ctx, stats, hist):
+    fam = misc_family()
+    mlines = [(i, c[1]) for i, c in enumerate(fam) if c[1]]
+    mans = dict(zip([i for i, _ in mlines], run_model([l for _, l in mlines])))
+    answers = eval_programs([{"sources": {"Main": c[3]}, "entry": "Main", "std": False, "compile": True} for c in fam])
+    for i, ((label, line, kind, src), ans) in enumerate(zip(fam, answers)):
+        stats["misc"] += 1
+        hist["misc"] = hist.get("misc", 0) + 1
+        expect_reject = kind is not None
+        pr = {"sources": {"Main": src}, "entry": "Main", "std": False, "compile": True}
+        if line is not None and mans.get(i) != ("0" if expect_reject else "1"):
+            ctx.violation(f"kind-gate model disagrees with the family's bookkeeping ({label}): model {mans.get(i)}",
+                          {"protocol": "gate", "case": label, "line": line, "model": mans.get(i), "broken": "Model/Gates.lean vs vlib/c06.py"}, no_input=True)
+            continue
+        verdict = gate_verdict(ans, "Main")
+        if expect_reject and verdict == "reject" and any(e["kind"] == kind for e in ans["errors"]):
+            stats["misc_rejected"] += 1
+        elif not expect_reject and verdict == "accept":
+            stats["misc_accepted"] += 1
+        elif expect_reject and verdict != "reject":
+            ctx.violation(f"static error not rejected (gate {label}, expected {kind}): {verdict}",
+                          {"protocol": "prog", "mutant": "misc " + label, "module": "Main", "program": pr, "answer": ans, "why": verdict})
+        else:
+            ctx.violation(f"gate family broken ({label}): expected {'a ' + kind + ' error' if kind else 'acceptance'}, front end says {verdict} "
+                          f"{[e['kind'] for e in ans.get('errors', [])][:4]}",
+                          {"protocol": "prog", "mutant": "misc " + label, "module": "Main", "program": pr, "answer": ans,
+                           "broken": "misc gate family"}, no_input=True)
+
+
+
 def shrink_program(prog, module, base):
     """Structural shrinking of a generated mutant: drop whole `function fK` definitions of the
     mutated module that are identical to the base program's (so the fault stays), as long as the
@@ -1746,7 +2025,7 @@ def run(ctx):
     rng = ctx.rng
     stats = {k: 0 for k in ["tok", "tok_disagree", "tok_literals", "tok_out_of_range", "tok_f1", "lit", "lit_f1",
                             "asg", "asg_disagree", "asg_accept", "asg_anyfree", "slv", "slv_accept",
-                            "sup", "sup_cyclic", "sup_disagree", "sup_prog_cyclic", "scope", "scope_rejected", "scope_accepted", "scope_slipped", "scope_base_rejected", "scope_ssa_compared", "scope_ssa_disagree", "scope_ssa_unparsed", "gate", "gate_rejected", "gate_accepted", "gate_slipped", "gate_overstrict", "join", "join_rejected", "join_accepted", "join_slipped", "join_base_rejected", "base_programs", "mutants", "mutants_rejected", "mutants_slipped", "tok_oracle_fail", "slv_disagree", "asg_spec_fail", "prog_f1", "prog_f2",
+                            "misc", "misc_rejected", "misc_accepted", "pat", "pat_rejected", "pat_accepted", "pat_slipped", "pat_overstrict", "sup", "sup_cyclic", "sup_disagree", "sup_prog_cyclic", "scope", "scope_rejected", "scope_accepted", "scope_slipped", "scope_base_rejected", "scope_ssa_compared", "scope_ssa_disagree", "scope_ssa_unparsed", "gate", "gate_rejected", "gate_accepted", "gate_slipped", "gate_overstrict", "join", "join_rejected", "join_accepted", "join_slipped", "join_base_rejected", "base_programs", "mutants", "mutants_rejected", "mutants_slipped", "tok_oracle_fail", "slv_disagree", "asg_spec_fail", "prog_f1", "prog_f2",
                             "sample_sites_total", "sample_bases_accepted"]}
     hist, errkinds, samples_out = {}, {}, []
     built = os.path.exists(common.harness_bin("C06")) and os.path.exists(common.driver_bin("C06")) and \
@@ -1777,10 +2056,12 @@ def run(ctx):
         check_gates(ctx, rng, stats, hist)
         check_gates2(ctx, rng, stats, hist)
         check_scopes(ctx, rng, stats, hist)
+        check_patterns(ctx, stats, hist)
+        check_misc(ctx, stats, hist)
         check_mutants(ctx, rng, ctx.scale(1600, 12000), ctx.scale(500, 8000), stats, hist, errkinds, samples_out)
     ctx.cov.update({
-        "evaluations": stats["tok"] + stats["lit"] + stats["asg"] + stats["slv"] + stats["mutants"] + stats["join"] + stats["gate"] + stats["scope"] + stats["sup"],
-        "distinct_nontrivial": stats["tok_out_of_range"] + stats["asg_accept"] + stats["slv_accept"] + stats["mutants_rejected"] + stats["join_rejected"] + stats["gate_rejected"] + stats["scope_rejected"],
+        "evaluations": stats["tok"] + stats["lit"] + stats["asg"] + stats["slv"] + stats["mutants"] + stats["join"] + stats["gate"] + stats["scope"] + stats["sup"] + stats["pat"] + stats["misc"],
+        "distinct_nontrivial": stats["tok_out_of_range"] + stats["asg_accept"] + stats["slv_accept"] + stats["mutants_rejected"] + stats["join_rejected"] + stats["gate_rejected"] + stats["scope_rejected"] + stats["pat_rejected"] + stats["misc_rejected"],
         "rule": "evaluations = token streams + literal expressions + type pairs + constraint problems + program mutants, each run "
                 "through the real crates; non-trivial = out-of-range literals inside token streams + type pairs the kernel "
                 "accepts (consistent up to any-holes; most pairs differ in one deep position) + accepted constraint problems "
